@@ -10,9 +10,22 @@ func init() {
 	reg("R-SYNC", "With Options.SyncEnable=true (CFG specialised on the flag and on bool parameters bound to it), every file-write primitive reachable from Tx.Commit is followed on every path to a normal return, and before the next write, by a sync primitive on the same handle; helpers that return with an unsynced write pass the obligation to their call sites.", ruleSync)
 	reg("R-FLAGBIND", "Every bool parameter that guards a sync call in the commit cone is bound to Options.SyncEnable (or to another such parameter) at all call sites.", ruleFlagBind)
 	reg("R-SYNCIMPL", "Every RWManager implementation's Sync passes (*os.File).Sync or mmap.MMap.Flush, on the handle its WriteAt writes, on every path to a normal return.", ruleSyncImpl)
+	reg("R-PUT", "All appends to Tx.pendingWrites are in one gate function; the append is dominated by the closed guard, tx.writable and len(key) != 0; the appended record takes txID from Tx.id, status UnCommitted and its size fields from len() of the stored payloads; Tx.id is stored only at construction.", rulePut)
+	reg("R-TXID", "snowflake.NewNode is not reachable from DB.Begin (a fresh node per transaction restarts the sequence, so ids collide).", ruleTxID)
+	reg("R-MARKER", "The only store of Committed into MetaData.status on the commit path targets the record being written, under index == len(pendingWrites)-1 (linear normal form), and precedes that record's Encode in the same iteration.", ruleMarker)
+	reg("R-ORDER", "Pending writes are written and applied in ascending index order; segment ids are sorted before replay; replay loops ascend.", ruleOrder)
+	reg("R-RECOVER", "In the cone of Open: every insertion into the committed-id set is dominated by status == Committed of the same record; every call that hands a *Record to an index-mutating function is dominated by membership of that record's txID in DB.committedTxIds, or forwards the function's own parameter.", ruleRecover)
+	reg("R-CRC", "In each decoder every return of a possibly non-nil record is dominated by the equal edge of GetCrc(record) == record.crc.", ruleCRC)
+	reg("R-CODEC", "For each on-disk record type (data entry, sparse root index, bucket meta): encoder and decoder agree field by field on byte range and integer width, width = field type, header ranges tile [0,H), decoder header buffer = H, payload segments are contiguous from H in the same order with the same size fields on both sides, Size() = H + payload sizes, the checksum covers everything after the crc field and GetCrc feeds the payloads in stored order, every struct field is decoded.", ruleCodec)
 }
 
 var properties = []Property{
+	{ID: "C21", Rules: []string{"R-CODEC", "R-CRC", "R-PUT"},
+		Explain: "Decides layout symmetry of the three codecs from the constant-folded byte ranges in the SSA form (encoder PutUintN vs decoder UintN per field, widths, tiling, payload order and bounds, Size()), CRC coverage on both sides, that every non-nil decoder return is behind the CRC comparison, and that the size fields of a logged record are len() of its payloads.",
+		NotCov:  "detection strength of CRC32, behaviour when a corrupted size field makes an allocation fail, bit-flip enumeration."},
+	{ID: "C10", Rules: []string{"R-MARKER", "R-PUT", "R-RECOVER", "R-TXID", "R-CRC", "R-ORDER"},
+		Explain: "Decides the protocol crash atomicity rests on: commit marker only on the last record and set before it is encoded; every record stamped with Tx.id and created UnCommitted through one gate; recovery believes only transactions with a marked record and replays only their records; the id generator is not per-transaction; every decoder return is behind the CRC comparison; records are written/replayed in log order.",
+		NotCov:  "enumeration of crash images and torn writes (R-TORN is under C09); sparse-mode persistence order of the per-segment tx-id index."},
 	{ID: "C11", Rules: []string{"R-SYNC", "R-FLAGBIND", "R-SYNCIMPL"},
 		Explain: "Decides the sync-after-write protocol that durability under SyncEnable rests on: on every CFG path of Tx.Commit and of every helper it reaches, each file write is followed by a sync of the same handle before a normal return and before the next write; sync flags are bound to Options.SyncEnable; both RWManager.Sync implementations reach a real sync primitive.",
 		NotCov:  "what the kernel does with synced data, directory-entry durability, recovery of a torn tail (C09), enumeration of crash images."},
